@@ -4,7 +4,7 @@ EXTENDS DriverSpec, TLC, Json
 CONSTANTS Family, FaultBehs, MaxGens, TruncLen
 
 VARIABLE scn
-Gating == {<<>>, <<"ok1">>, <<"ok1", "exit1">>, <<"ok2", "ok0", "ok1">>, <<"missing", "ok1">>}
+Gating == {<<>>, <<"ok1">>, <<"ok1", "exit1">>, <<"ok2", "ok0", "ok1">>, <<"missing", "ok1">>, <<"replykill", "ok1">>}
 \* dup: the first source file is listed twice (a DuplicateFile warning is recorded while the files are resolved - before
 \* anything is parsed; like every warning it must change neither the gate nor the exit status)
 GatingScenarios == [cls : Classes, errfile : {1, 2}, dry : BOOLEAN, allow : BOOLEAN, outdir : {"absent", "given"},
